@@ -19,12 +19,18 @@ def materialise(sp, ch, res=None):
     """statechart object for `sp`: usually straight through the API, in a quarter of the runs by the
     detour of build_via_edits (attach elsewhere / temporary names, execute and query, then move / rename)"""
     st = ch.s('mat')
-    if st.flag(1, 4):
+    how = st.choice(12)      # 0: plain API; 1-3: editing-API detour; 4: YAML document (slow: schema validation); else API
+    if how in (1, 2, 3):
         sc, nm, na = build_via_edits(sp, st)
         if res is not None:
             res.stats['charts_materialised_through_move_and_rename'] += 1
             res.stats['states_moved_or_renamed_before_the_run'] += nm + na
         return sc
+    if how == 4:
+        from sim.chart import build_yaml
+        if res is not None:
+            res.stats['charts_materialised_through_a_yaml_document'] += 1
+        return build_yaml(sp, st)
     return None
 
 
